@@ -385,9 +385,22 @@ pub fn written(ops: &[Op]) -> Written {
                 closed[if *fd == 2 { 1 } else { 0 }] = true;
                 w.closes_streams = true;
             }
-            Op::Bg { hold, .. } => {
+            Op::Bg { hold, out_fd, out, .. } => {
                 if *hold {
-                    w.has_bg_hold = true
+                    w.has_bg_hold = true;
+                    // what a grandchild that holds the pipes writes before it goes away is
+                    // output of this command (the generators put such an op last)
+                    if !out.0.is_empty() {
+                        let i = if *out_fd == 2 { 1 } else { 0 };
+                        if !closed[i] {
+                            if i == 0 {
+                                w.fd1.extend(&out.0)
+                            } else {
+                                w.fd2.extend(&out.0)
+                            }
+                            w.merged.extend(&out.0);
+                        }
+                    }
                 }
             }
             Op::Touch { .. } => {}
